@@ -113,7 +113,7 @@ func (r *c17Run) finish(kind string, rep int) {
 
 func runC17(c *core.Ctx) {
 	G := c.Pick(16, 32)
-	R := c.Pick(30, 400)
+	R := c.Pick(30, 800)
 	kinds := []string{"type1", "ed25519", "type5", "ecdsa", "type2", "batch", "type3"}
 	setup := c.Rng("setup")
 	k1seed, k5seed := setup.Bytes(32), setup.Bytes(32)
